@@ -193,6 +193,51 @@ def h_defs(i: int) -> bool:
     return why is None
 
 
+# ---- literals whose body looks like a punctuator or operator ---------------------------
+
+LIT_BODIES = ["((x) == '#')", 'x "#"', '"##" x', "x ',' 1", "'(' x ')'", "#x '#'", 'x ## 1 "##"', "x"]
+LIT_INVS = ["F(',')", "F('(')", "F(')')", 'F(",")', 'F(")" "(")', "F('#')", "F(1)", "F (')', '(') 2", 'F("a,b") + F(\'"\')',
+            "G F('(') )", 'F("C:\\\\") x']
+
+
+def h_lits(b: int, v: int) -> bool:
+    """
+    pre: 0 <= b < len(LIT_BODIES) and 0 <= v < len(LIT_INVS)
+    post: _
+    """
+    bi = vi = None
+    for j in range(len(LIT_BODIES)):
+        if b == j:
+            bi = j
+    for j in range(len(LIT_INVS)):
+        if v == j:
+            vi = j
+    why = None
+    with scen.untraced():
+        import codebasin.preprocessor as pp
+
+        defs = [("F(x)", LIT_BODIES[bi]), ("G", "[")]
+        inv = LIT_INVS[vi]
+        try:
+            table = {"F": ref_macro.MacroDef("F", ["x"], _lex_body(LIT_BODIES[bi])), "G": ref_macro.MacroDef("G", None, ["["])}
+            exp = ref_macro.expand_spellings(ref_macro.lex_ws(inv), table)
+        except ref_macro.Invalid:
+            return True
+        STATS["compared"] += 1
+        if P.get("_twin"):
+            return False
+        try:
+            plat = _cbi_platform(defs)
+            got = _spell(pp.MacroExpander(plat).expand(pp.Lexer(inv).tokenize()))
+            if got != exp:
+                why = "expansion %s != %s" % (got, exp)
+        except Exception as e:
+            why = "exception " + repr(e)
+    if P.get("_replay"):
+        LAST.update(defines=["%s %s" % d for d in defs], invocation=inv, expected=exp, why=why)
+    return why is None
+
+
 NAMES = ["None", "True", "False", "self", "ident", "str", "defined_", "__class__", "tokens", "_", "x", "NULL", "nan", "inf", "e1", "L", "u8"]
 
 
@@ -318,7 +363,7 @@ def replay(obd, cex):
     detail = dict(LAST)
     if ok is not False:
         return dict(reproduced=False, detail=detail)
-    if obd["func"] == "h_expand" and shutil.which("gcc"):
+    if obd["func"] in ("h_expand", "h_lits") and shutil.which("gcc"):
         d = tempfile.mkdtemp(prefix="vp_c03_")
         try:
             p = os.path.join(d, "t.c")
@@ -378,6 +423,7 @@ def obligations(tier, known):
             obs.append(Ob(id="witness/" + fid, kind="ch", module=__name__, func="h_expand",
                           params=dict(head=1, inv=5, nitems=10, ng=4, nh=2, three=False, regions=[], witness=fid), timeout=300,
                           expect="witness:" + fid, group="witness"))
+    obs.append(Ob(id="defs/literals", kind="ch", module=__name__, func="h_lits", params={}, timeout=200, group="defs"))
     obs.append(Ob(id="defs/macro-names", kind="ch", module=__name__, func="h_names", params={}, timeout=120, group="defs"))
     obs.append(Ob(id="defs/-D-vs-define", kind="ch", module=__name__, func="h_defs", params={}, timeout=120, group="defs"))
     obs.append(Ob(id="ifk/truth", kind="ch", module=__name__, func="h_ifk", params={}, timeout=300, group="ifk"))
